@@ -259,9 +259,9 @@ def _py(n):
         return ("unary", _py(n.operand))
     if isinstance(n, pyast.BinOp):
         a, b = _py(n.left), _py(n.right)
-        if isinstance(n.op, pyast.Add) and b[0] == "cplx" and b[1] == ("lit", 0.0):
+        if isinstance(n.op, pyast.Add) and b[0] == "cplx" and b[1] == ("lit", 0.0) and _is_real_lit(a):
             return ("cplx", a, b[2])
-        if isinstance(n.op, pyast.Sub) and b[0] == "cplx" and b[1] == ("lit", 0.0):
+        if isinstance(n.op, pyast.Sub) and b[0] == "cplx" and b[1] == ("lit", 0.0) and _is_real_lit(a):
             return ("cplx", a, ("neg", b[2]) if b[2][0] != "neg" else b[2][1])
         return (_PYOPS.get(type(n.op), "?" + type(n.op).__name__), a, b)
     if isinstance(n, pyast.Compare):
@@ -313,8 +313,34 @@ def pynames(t, acc=None):
     return acc
 
 
-def canon_equal(a, b, tol=0.0):
+def _is_real_lit(t):
+    return isinstance(t, tuple) and (t[0] == "lit" or (t[0] == "neg" and isinstance(t[1], tuple) and t[1][0] == "lit"))
+
+
+def normalise(t):
+    """`2.5 + 2j` and the complex literal (2.5+2j) are the same tree for Python's parser (it drops the parentheses):
+    fold  real-literal +/- pure-imaginary-literal  into one complex literal on both sides before comparing."""
+    if isinstance(t, list):
+        return [normalise(x) for x in t]
+    if not isinstance(t, tuple):
+        return t
+    t = tuple(normalise(x) for x in t)
+    if len(t) == 3 and t[0] in ("+", "-") and _is_real_lit(t[1]) and isinstance(t[2], tuple) and t[2][0] == "cplx" and t[2][1] == ("lit", 0.0):
+        im = t[2][2]
+        if t[0] == "-":
+            im = im[1] if im[0] == "neg" else ("neg", im)
+        return ("cplx", t[1], im)
+    return t
+
+
+def canon_equal(a, b, tol=0.0, _norm=True):
     """Structural equality of canonical trees; numeric literals compared by value."""
+    if _norm:
+        return canon_equal(normalise(a), normalise(b), tol, False)
+    return _canon_equal(a, b, tol)
+
+
+def _canon_equal(a, b, tol=0.0):
     if isinstance(a, (tuple, list)) and isinstance(b, (tuple, list)):
         if len(a) != len(b):
             return False
@@ -323,5 +349,5 @@ def canon_equal(a, b, tol=0.0):
             if isinstance(x, (int, float)) and isinstance(y, (int, float)):
                 return x == y or abs(x - y) <= tol * max(abs(x), abs(y))
             return x == y
-        return all(canon_equal(x, y, tol) for x, y in zip(a, b))
+        return all(_canon_equal(x, y, tol) for x, y in zip(a, b))
     return a == b
